@@ -107,6 +107,27 @@ func checkC18Expr(c c18ExprCase) *evid.Fail {
 		f.Sig = "reused-parser:" + f.Sig
 		return f
 	}
+	// the token-list entry (tokens taken from a parser that compiled the text) reports the same names
+	p2 := cparsers.NewExpressionParser()
+	if g := guard(func() { err = p2.ParseTokens(p.OriginalTokens()) }); g != nil {
+		return g
+	}
+	if err != nil {
+		return evid.F("token-entry:rejected", "%q: ParseTokens(OriginalTokens()) rejected: %v", c.Text, err)
+	}
+	if f := checkNameList(fmt.Sprintf("expression %q through ParseTokens", c.Text), p2.VariableNames(), occ, strings.ToUpper); f != nil {
+		f.Sig = "token-entry:" + f.Sig
+		return f
+	}
+	calc0 := calculator.ExpressionCalculatorFromTokens(p.OriginalTokens())
+	for _, o := range occ {
+		if calc0.DefaultVariables().FindByName(o) == nil {
+			return evid.F("token-entry:autovars-missing", "%q through ExpressionCalculatorFromTokens: no default variable for %q", c.Text, o)
+		}
+	}
+	if n := calc0.DefaultVariables().Length(); n > len(occ) {
+		return evid.F("token-entry:autovars-spurious", "%q through ExpressionCalculatorFromTokens: %d default variables for %d occurrences %q", c.Text, n, len(occ), occ)
+	}
 	// automatic variables: one entry per name compared case-insensitively, previous entries and values kept
 	calc := calculator.NewExpressionCalculator()
 	for _, b := range c.Pre {
@@ -418,7 +439,8 @@ func TestC18_RapidTemplates(t *testing.T) {
 			k := randomCase(rt, rapid.SampledFrom(append([]string{"other"}, c10Names...)).Draw(rt, "prekey"))
 			dup := false
 			for e := range c.Pre {
-				if strings.EqualFold(e, k) {
+				// the library compares names after strings.ToLower (not Unicode case folding): keys must be unique under that
+				if strings.ToLower(e) == strings.ToLower(k) || strings.EqualFold(e, k) {
 					dup = true
 				}
 			}
@@ -474,6 +496,7 @@ func checkC18Coll(c c18CollCase) *evid.Fail {
 		fc := functions.NewFunctionCollection()
 		var model []c18Entry
 		funcsByID := map[int]functions.IFunction{}
+		callerValues := map[int]*variants.Variant{} // the value objects handed to Add stay the caller's
 		nextID := 0
 		find := func(name string) int {
 			for i, e := range model {
@@ -503,7 +526,8 @@ func checkC18Coll(c c18CollCase) *evid.Fail {
 			case "add":
 				nextID++
 				if c.Kind == "variables" {
-					vc.Add(variables.NewVariable(op.Name, variants.VariantFromInteger(nextID)))
+					callerValues[nextID] = variants.VariantFromInteger(nextID)
+					vc.Add(variables.NewVariable(op.Name, callerValues[nextID]))
 				} else {
 					f := tupFunction(op.Name)
 					funcsByID[nextID] = f
@@ -587,6 +611,12 @@ func checkC18Coll(c c18CollCase) *evid.Fail {
 				vc.ClearValues()
 				for i := range model {
 					model[i].val = -1
+				}
+				for id, v := range callerValues {
+					if v.Type() != variants.Integer || v.AsInteger() != id {
+						bad(step, "clearvalues-changed-callers-object", "ClearValues changed the value object the caller had added for entry #%d to %s", id, fromVariant(v))
+						return
+					}
 				}
 			}
 			// the whole list after every step
